@@ -7,6 +7,6 @@ CONSTANT EpochIds = {1, 2, 3, 4, 5}
 CONSTANT MaxSteps = 7
 CONSTANT Ops <- SeqOps
 CONSTANT SessChecksDisabled = FALSE
-SPECIFICATION Spec
+SPECIFICATION SimSpec
 INVARIANT BehaviourExport
 CHECK_DEADLOCK FALSE
